@@ -94,7 +94,7 @@ enum DynTrig
 
 impl DynTrig
 {
-    fn reactor_type(&self) -> ReactorType
+    fn rt_inner(&self) -> ReactorType
     {
         macro_rules! go { ($n:literal, $mk:expr) => { { let t = $mk; ReactionTrigger::reactor_type(&t) } }; }
         match *self
@@ -113,7 +113,7 @@ impl DynTrig
         }
     }
 
-    fn register(&self, c: &mut Commands, h: &ReactorHandle)
+    fn reg_inner(&self, c: &mut Commands, h: &ReactorHandle)
     {
         macro_rules! go { ($n:literal, $mk:expr) => { { let t = $mk; ReactionTrigger::register(&t, c, h) } }; }
         match *self
@@ -135,19 +135,56 @@ impl DynTrig
 
 const MAX_TRIGS: usize = 16;
 
+/// A dynamically chosen trigger is itself a `ReactionTrigger`, so bundles of them go through the crate's own tuple
+/// implementations of `ReactionTriggerBundle` (arity 0..=15, and nested tuples for 16).
+impl ReactionTrigger for DynTrig
+{
+    fn reactor_type(&self) -> ReactorType { self.rt_inner() }
+    fn register(&self, commands: &mut Commands, handle: &ReactorHandle) { self.reg_inner(commands, handle) }
+}
+
 #[derive(Copy, Clone)]
 struct DynBundle { n: usize, t: [DynTrig; MAX_TRIGS] }
 
+macro_rules! tup { ($s:expr; $($i:literal),*) => { ($($s.t[$i],)*) } }
+macro_rules! via_tuple
+{
+    ($s:expr, |$b:ident| $body:expr) =>
+    {
+        match $s.n
+        {
+            0 => { let $b = (); $body }
+            1 => { let $b = tup!($s; 0); $body }
+            2 => { let $b = tup!($s; 0, 1); $body }
+            3 => { let $b = tup!($s; 0, 1, 2); $body }
+            // nested bundles are bundles too
+            4 => { let $b = (tup!($s; 0, 1), tup!($s; 2, 3)); $body }
+            5 => { let $b = tup!($s; 0, 1, 2, 3, 4); $body }
+            6 => { let $b = (tup!($s; 0), tup!($s; 1, 2, 3, 4), $s.t[5]); $body }
+            7 => { let $b = tup!($s; 0, 1, 2, 3, 4, 5, 6); $body }
+            8 => { let $b = tup!($s; 0, 1, 2, 3, 4, 5, 6, 7); $body }
+            9 => { let $b = tup!($s; 0, 1, 2, 3, 4, 5, 6, 7, 8); $body }
+            10 => { let $b = tup!($s; 0, 1, 2, 3, 4, 5, 6, 7, 8, 9); $body }
+            11 => { let $b = tup!($s; 0, 1, 2, 3, 4, 5, 6, 7, 8, 9, 10); $body }
+            12 => { let $b = tup!($s; 0, 1, 2, 3, 4, 5, 6, 7, 8, 9, 10, 11); $body }
+            13 => { let $b = tup!($s; 0, 1, 2, 3, 4, 5, 6, 7, 8, 9, 10, 11, 12); $body }
+            14 => { let $b = tup!($s; 0, 1, 2, 3, 4, 5, 6, 7, 8, 9, 10, 11, 12, 13); $body }
+            15 => { let $b = tup!($s; 0, 1, 2, 3, 4, 5, 6, 7, 8, 9, 10, 11, 12, 13, 14); $body }
+            _ => { let $b = (tup!($s; 0, 1, 2, 3, 4, 5, 6, 7), tup!($s; 8, 9, 10, 11, 12, 13, 14, 15)); $body }
+        }
+    };
+}
+
 impl ReactionTriggerBundle for DynBundle
 {
-    fn len(&self) -> usize { self.n }
+    fn len(&self) -> usize { via_tuple!(self, |b| ReactionTriggerBundle::len(&b)) }
     fn collect_reactor_types(self, func: &mut impl FnMut(ReactorType))
     {
-        for i in 0..self.n { func(self.t[i].reactor_type()); }
+        via_tuple!(self, |b| b.collect_reactor_types(&mut *func))
     }
     fn register_triggers(self, commands: &mut Commands, handle: &ReactorHandle)
     {
-        for i in 0..self.n { self.t[i].register(commands, handle); }
+        via_tuple!(self, |b| b.register_triggers(commands, handle))
     }
 }
 
@@ -246,13 +283,17 @@ fn sample(ev: &mut EvReaders, er: &EntReaders, ents: &bevy::ecs::entity::Entitie
         ev.4.try_read().ok().map(|(t, e)| format!("{}:{}", name_of(t), e.0.0)).unwrap_or("-".into()),
         ev.5.try_read().ok().map(|(t, e)| format!("{}:{}", name_of(t), e.0.0)).unwrap_or("-".into()),
     ];
+    // the three ways of reading a despawn event must agree
+    let dsp = er.6.get().ok();
+    let dsp2 = if er.6.is_empty() { None } else { Some(er.6.entity()) };
+    if dsp != dsp2 { log(format!("accessor-mismatch dsp {} {}", opt_name(dsp), opt_name(dsp2))); }
     let s = format!(
         "se={},{} se2={},{} bc={},{} ev={},{} ins={},{} mut={},{} rem={},{} dsp={}",
         opt(se[0]), opt(se[1]), opt(se2[0]), opt(se2[1]), opt(bc[0]), opt(bc[1]), ee[0], ee[1],
         opt_name_alive(er.0.get().ok(), ents), opt_name_alive(er.1.get().ok(), ents),
         opt_name(er.2.get().ok()), opt_name(er.3.get().ok()),
         opt_name(er.4.get().ok()), opt_name(er.5.get().ok()),
-        opt_name(er.6.get().ok()),
+        opt_name(dsp),
     );
     (s, taken)
 }
